@@ -28,11 +28,13 @@ Print Assumptions C11_current.
 Theorem C11_immutable : forall sha, (forall a b, sha a = sha b -> a = b) -> forall (s : state) o p c, files s p = Some c ->
   (forall n, o = Remove n -> fst (fst p) <> n) -> files (step sha s o) p = Some c.
 Proof. exact immutable. Qed.
+Print Assumptions C11_immutable.
 
 (** later edits of the source file do not affect registered content; a fresh instance sees the same state *)
 Theorem C11_source_edits_and_fresh_instance : forall sha (s : state) sr x,
   files (step sha s (Mutate sr x)) = files s /\ mans (step sha s (Mutate sr x)) = mans s /\ step sha s NewInstance = s.
 Proof. intros. repeat split. Qed.
+Print Assumptions C11_source_edits_and_fresh_instance.
 
 (** the manifest gains exactly one entry per registration that changes the current version, none for a repeat *)
 Theorem C11_manifest_spec : forall s0 ops n sr,
